@@ -23,6 +23,76 @@ LATTICES = {
 # longitude (start nodes geodetic and geocentric of the graph part)
 FAR_LONGITUDES = [-270.0, 270.0, 359.999, 360.0]
 
+# Representations of a number other than float64 (Python float for scalars):
+# name -> (converter of a float64 array, call forms). Every argument is
+# given in each of them, one argument at a time and all together, with
+# values that are exact in the representation.
+REPRS = {
+    "int": (None, ("scalar",)),                       # Python int
+    "int64": (np.int64, ("1-D", "2-D")),
+    "float32": (np.float32, ("scalar", "1-D", "2-D")),  # scalar: np.float32
+}
+REPR_MODES = [(rep, form) for rep, (_, forms) in REPRS.items()
+              for form in forms]
+# added to the whole-numbered values of an axis for float32: half degrees
+HALF_DEGREES = [-45.5, 30.5]
+
+
+def quantize(rep, values):
+    """The nearest values that are exact in the representation (float64)."""
+    values = np.asarray(values, dtype=np.float64)
+    if rep == "float32":
+        return values.astype(np.float32).astype(np.float64)
+    return np.rint(values)
+
+
+def exact(rep, axis):
+    """The values of an axis that the representation holds exactly."""
+    return [v for v in axis if quantize(rep, v) == v]
+
+
+def subsets(n):
+    """Positions of the arguments given in the other representation."""
+    return [(k,) for k in range(n)] + [tuple(range(n))]
+
+
+def convert(value, rep):
+    """One argument (scalar or float64 array) in the representation."""
+    dtype = REPRS[rep][0]
+    if np.ndim(value):
+        return value.astype(dtype)
+    return int(value) if dtype is None else dtype(value)
+
+
+def represent(columns, which, rep, form):
+    """columns: equal-length 1-D float64 arrays, one per argument, exact in
+    rep. Returns the list of argument tuples to call with (one per point
+    for form "scalar", else a single tuple of arrays) in which the arguments
+    at the positions `which` are in representation rep, the others float64."""
+    if form == "scalar":
+        return [tuple(convert(v, rep) if k in which else float(v)
+                      for k, v in enumerate(point))
+                for point in zip(*columns)]
+    n = columns[0].size
+    rows = max(w for w in range(1, int(n ** 0.5) + 1) if n % w == 0)
+    shape = (n,) if form == "1-D" else (rows, n // rows)
+    return [tuple((convert(col, rep) if k in which else col).reshape(shape)
+                  for k, col in enumerate(columns))]
+
+
+def as_float64(args):
+    return tuple(float(a) if np.ndim(a) == 0
+                 else np.asarray(a, dtype=np.float64) for a in args)
+
+
+def representation_key(key, rep):
+    """Key of a violation that does not occur when the same values are given
+    as float64: one per function and representation."""
+    parts = key.split("/")
+    return "%s/wrong-with-%s-arguments" % (
+        parts[1] if parts[0] == "exception" else parts[0], rep)
+
+
 # kind of a coordinate -> (tolerance, unit, compared modulo 360)
 KINDS = {
     "m": (0.01, "m", False),          # statement: 1 cm
